@@ -221,6 +221,7 @@ class Stats:
         self.exhaustive = None
         self.shrink_calls = 0
         self.max_approach = 0.0
+        self.cut_short = False
 
     def record(self, case, ctx, excluded, fp=None):
         self.evaluations += 1
@@ -250,7 +251,7 @@ class Stats:
             'evaluations': self.evaluations, 'nontrivial': self.nontrivial, 'labels': dict(self.labels),
             'excluded': dict(self.excluded), 'known_hits': dict(self.known_hits),
             'samples': self.first + [c for _, c in self.samples[:3]], 'violation': self.violation,
-            'error': self.error, 'wall': self.wall, 'exhaustive': self.exhaustive, 'max_approach': self.max_approach,
+            'error': self.error, 'wall': self.wall, 'exhaustive': self.exhaustive, 'max_approach': self.max_approach, 'cut_short': self.cut_short,
         }
 
 
@@ -276,6 +277,7 @@ def task_seed(seed, prop, clause_name, shard):
 
 
 SHRINK_BUDGET_S = {'quick': 25.0, 'thorough': 120.0}
+SEARCH_BUDGET_S = float(os.environ.get('VERIF_SEARCH_BUDGET_S', 20 * 60.0))      # per shard of a Hypothesis clause, thorough tier only
 
 
 def _size(case):
@@ -343,12 +345,18 @@ def _run_hyp(prop, clause, tier, seed, shard, st, one, best):
     from hypothesis import given
     n = clause.examples[tier]
     budget = SHRINK_BUDGET_S[tier]
+    t_start = time.time()
 
     @hypothesis.seed(task_seed(seed, prop, clause.name, shard))
     @_hyp_settings(n, tier)
     @given(clause.strategy(tier))
     def test(case):
         shrinking = best['t_first'] is not None
+        if not shrinking and tier == 'thorough' and time.time() - t_start > SEARCH_BUDGET_S:
+            # the targeted search of the thorough tier has no natural end when the hill climber keeps proposing cached / rejected examples: a shard that has
+            # searched this long stops here.  What was explored is reported as explored (the evidence says the search was cut short); never a violation
+            st.cut_short = True
+            raise _StopShrink()
         v = one(case, count=not shrinking)
         if shrinking:
             st.shrink_calls += 1
